@@ -6,7 +6,7 @@ View == vars
 Designs(gg) == IF gg = "cart" THEN {<<"cartesian", "full">>, <<"cartesian", "quarter">>}
                ELSE IF gg = "third" THEN {<<"hex", "third">>, <<"hex_corners_up", "third">>}
                ELSE IF gg = "fullflat" THEN {<<"hex", "full">>} ELSE {<<"hex_corners_up", "full">>}
-Case == [g |-> g, wide |-> wide, dense |-> dense,
+Case == [g |-> g, wide |-> wide, dense |-> dense, complete |-> (S = Universe(g)),
          S |-> ContentsSeq(Contents), tp |-> Tp, tt |-> Tt,
          gc |-> SetToSeq({[geom |-> d[1], dom |-> d[2], cells |-> ContentsSeq(GridContents(d[1], d[2], Tp))] : d \in Designs(g)})]
 EmitState == S = {} \/ PrintT(ToJson(Case))
